@@ -288,7 +288,8 @@ impl Context {
                         let int_indices: Vec<i32> = indices.try_cast()?;
                         address_offset_of_element(v_arr, &int_indices)
                     }
-                    _ => panic!("Expected array"),
+                    // a dynamic array that has not been dimensioned yet
+                    _ => Err(RuntimeError::SubscriptOutOfRange),
                 }
             }
             Path::Property(parent_path, property_name) => {
@@ -323,7 +324,8 @@ impl Context {
                         let int_indices: Vec<i32> = indices.try_cast()?;
                         v_arr.get_element(&int_indices).map_err(RuntimeError::from)
                     }
-                    _ => panic!("Expected array"),
+                    // a dynamic array that has not been dimensioned yet
+                    _ => Err(RuntimeError::SubscriptOutOfRange),
                 }
             }
             Path::Property(parent_path, property_name) => {
